@@ -2,7 +2,7 @@
 from core import *
 
 INV = ["Ok", "RefinesList", "RefinesFrames", "NoLeak", "Pinned", "Reachable", "TypeOK"]
-ALL1 = {"a", "p", "i", "r", "o", "e", "f", "g", "v", "j"}
+ALL1 = {"a", "p", "i", "r", "o", "e", "f", "g", "v", "j", "fu"}
 UTIL = {"hl", "ha", "rl"}
 OBJ = {"cc", "mc", "ca", "ma", "s", "d"}
 
@@ -52,7 +52,8 @@ def c01(tier, seed):
 def c02(tier, seed):
     quick = tier == "quick"
     n = 3 if quick else 4
-    models = [{"module": "CLImpl", "tag": "nest%d" % n, "constants": consts(n, 2, ops=ALL1 - {"j"} if quick else ALL1 - {"g", "j"}), "invariants": INV,
+    models = [{"module": "CLImpl", "tag": "nest%d" % n, "constants": consts(n, 2, ops=ALL1 - {"j", "g", "e", "f"} if quick else ALL1 - {"g", "j"},
+                                                                       nest=ALL1 - {"j", "g", "e", "f", "p", "o"} if quick else None), "invariants": INV,
                "heap": "16g"}]
     if not quick:
         models.append({"module": "CLImpl", "tag": "nest3-jump", "constants": consts(3, 2, ops=ALL1 - {"g", "e"}), "invariants": INV, "heap": "16g"})
